@@ -124,6 +124,8 @@ def check(rep, tier, seed):
         mc = "create 0 %s %s - %s" % (",".join(cols), model_samples(sm), model_records(recs))
         jobs.append((["create", "-S", path], render_vcf(cols, recs))); mcases.append(mc); metas.append("samples-file-spaced-labels:" + mc)
     exps = run_model(mcases)
+    from common import invocation_variants
+    invocation_variants(rep, "create-cli:invocation-form", [j for j in jobs if len(j[1]) > 300], rng, n=8 if tier == "quick" else 60)
     compare_cli(rep, "create-cli-vcf", jobs, exps, metas)
     for f in sfiles:
         os.remove(f)
